@@ -135,36 +135,36 @@ func genesisRejections(w *World, root *ssa.Function) []rejection {
 // reported: a validator stricter than the runtime makes an exported state un-importable).
 var c12VettedRejections = map[string]string{
 	// cfevesting: pools
-	"x/cfevesting/types.VestingPool.Validate: rejects when (builtin.len(<*x/cfevesting/types.VestingPool>.Name) == 0)":                                  "pools are created only by CreateVestingPool / the v120 split, both with a name checked non-empty (ValidateCreateVestingPool; constants)",
-	"x/cfevesting/types.VestingPool.Validate: rejects when math.Int.IsNegative(<*x/cfevesting/types.VestingPool>.InitiallyLocked)":                      "InitiallyLocked is the created amount, rejected when negative at creation; the split subtracts only behind a non-negativity guard (C16.split)",
-	"x/cfevesting/types.VestingPool.Validate: rejects when math.Int.IsNegative(<*x/cfevesting/types.VestingPool>.Withdrawn)":                            "Withdrawn starts at zero and only grows by oracle results, which are zero or GetCurrentlyLocked() (C06.table, C05.pair)",
-	"x/cfevesting/types.VestingPool.Validate: rejects when math.Int.IsNegative(<*x/cfevesting/types.VestingPool>.Sent)":                                 "Sent starts at zero and only grows by amounts validated non-negative (C05.avail)",
-	"x/cfevesting/types.VestingPool.Validate: rejects when math.Int.IsNegative(types.VestingPool.GetCurrentlyLocked(<*x/cfevesting/types.VestingPool>))": "Sent grows only where currentlyLocked >= amount and Withdrawn by at most currentlyLocked (C05.avail, C06.table)",
-	"x/cfevesting/types.AccountVestingPools.ValidateAgainstVestingTypes: rejects when !phi":                                                             "a pool is created only with an existing vesting type (GetVestingType error is fatal in addVestingPool); types are never removed at run time",
-	"x/cfevesting/types.AccountVestingPools.checkDuplications: rejects when (phi > 1)":                                                                  "addVestingPool rejects a duplicate pool name for the owner",
-	"x/cfevesting/types.GenesisState.validateAccountVestingPools: rejects when (phi > 1)":                                                               "pools are stored under the owner address as key: one record per owner",
-	"x/cfevesting/types.GenesisState.validateVestingTypes: rejects when (phi > 1)":                                                                      "vesting types are stored under their name as key: one record per name",
-	"x/cfevesting/types.GenesisState.Validate: rejects when ?[key]#1":                                                                                   "traces are stored under their id as key: ids are unique",
+	"x/cfevesting/types.VestingPool.Validate: rejects when (builtin.len(<*x/cfevesting/types.VestingPool>.Name) == 0)":                                                                            "pools are created only by CreateVestingPool / the v120 split, both with a name checked non-empty (ValidateCreateVestingPool; constants)",
+	"x/cfevesting/types.VestingPool.Validate: rejects when math.Int.IsNegative(<*x/cfevesting/types.VestingPool>.InitiallyLocked)":                                                                "InitiallyLocked is the created amount, rejected when negative at creation; the split subtracts only behind a non-negativity guard (C16.split)",
+	"x/cfevesting/types.VestingPool.Validate: rejects when math.Int.IsNegative(<*x/cfevesting/types.VestingPool>.Withdrawn)":                                                                      "Withdrawn starts at zero and only grows by oracle results, which are zero or GetCurrentlyLocked() (C06.table, C05.pair)",
+	"x/cfevesting/types.VestingPool.Validate: rejects when math.Int.IsNegative(<*x/cfevesting/types.VestingPool>.Sent)":                                                                           "Sent starts at zero and only grows by amounts validated non-negative (C05.avail)",
+	"x/cfevesting/types.VestingPool.Validate: rejects when math.Int.IsNegative(types.VestingPool.GetCurrentlyLocked(<*x/cfevesting/types.VestingPool>))":                                          "Sent grows only where currentlyLocked >= amount and Withdrawn by at most currentlyLocked (C05.avail, C06.table)",
+	"x/cfevesting/types.AccountVestingPools.ValidateAgainstVestingTypes: rejects when !phi":                                                                                                       "a pool is created only with an existing vesting type (GetVestingType error is fatal in addVestingPool); types are never removed at run time",
+	"x/cfevesting/types.AccountVestingPools.checkDuplications: rejects when (phi > 1)":                                                                                                            "addVestingPool rejects a duplicate pool name for the owner",
+	"x/cfevesting/types.GenesisState.validateAccountVestingPools: rejects when (phi > 1)":                                                                                                         "pools are stored under the owner address as key: one record per owner",
+	"x/cfevesting/types.GenesisState.validateVestingTypes: rejects when (phi > 1)":                                                                                                                "vesting types are stored under their name as key: one record per name",
+	"x/cfevesting/types.GenesisState.Validate: rejects when ?[key]#1":                                                                                                                             "traces are stored under their id as key: ids are unique",
 	"x/cfevesting/types.GenesisState.Validate: rejects when (<*x/cfevesting/types.VestingAccountTrace>.Id >= types.GenesisState.GetVestingAccountTraceCount(<*x/cfevesting/types.GenesisState>))": "AppendVestingAccountTrace assigns id = count and then stores count+1 (C17.only: single writer)",
 	// cfevesting: vesting types (written by genesis and the v120 upgrade only; exported through UnitsFromDuration)
-	"x/cfevesting/types.GenesisVestingType.Validate: rejects when (builtin.len(<*x/cfevesting/types.GenesisVestingType>.Name) == 0)": "vesting types come from a validated genesis or from the upgrade's constants",
-	"x/cfevesting/types.GenesisVestingType.Validate: rejects when (types.DurationFromUnits(<*x/cfevesting/types.GenesisVestingType>.LockupPeriodUnit,<*x/cfevesting/types.GenesisVestingType>.LockupPeriod)#0 < 0)":  "periods are stored as validated at import; export renders them with a unit that divides them (C12.lossless)",
+	"x/cfevesting/types.GenesisVestingType.Validate: rejects when (builtin.len(<*x/cfevesting/types.GenesisVestingType>.Name) == 0)":                                                                                  "vesting types come from a validated genesis or from the upgrade's constants",
+	"x/cfevesting/types.GenesisVestingType.Validate: rejects when (types.DurationFromUnits(<*x/cfevesting/types.GenesisVestingType>.LockupPeriodUnit,<*x/cfevesting/types.GenesisVestingType>.LockupPeriod)#0 < 0)":   "periods are stored as validated at import; export renders them with a unit that divides them (C12.lossless)",
 	"x/cfevesting/types.GenesisVestingType.Validate: rejects when (types.DurationFromUnits(<*x/cfevesting/types.GenesisVestingType>.VestingPeriodUnit,<*x/cfevesting/types.GenesisVestingType>.VestingPeriod)#0 < 0)": "as above",
-	"x/cfevesting/types.GenesisVestingType.Validate: rejects when types.Dec.GT(<*x/cfevesting/types.GenesisVestingType>.Free,types.NewDec(1))":                                                                       "Free is stored as validated at import / upgrade constant",
-	"x/cfevesting/types.GenesisVestingType.Validate: rejects when types.Dec.IsNegative(<*x/cfevesting/types.GenesisVestingType>.Free)":                                                                               "as above",
-	"x/cfevesting/types.DurationFromUnits: rejects when !(<x/cfevesting/types.PeriodUnit> == \"second\")":                                                                                                            "export writes only the four known units (UnitsFromDuration)",
+	"x/cfevesting/types.GenesisVestingType.Validate: rejects when types.Dec.GT(<*x/cfevesting/types.GenesisVestingType>.Free,types.NewDec(1))":                                                                        "Free is stored as validated at import / upgrade constant",
+	"x/cfevesting/types.GenesisVestingType.Validate: rejects when types.Dec.IsNegative(<*x/cfevesting/types.GenesisVestingType>.Free)":                                                                                "as above",
+	"x/cfevesting/types.DurationFromUnits: rejects when !(<x/cfevesting/types.PeriodUnit> == \"second\")":                                                                                                             "export writes only the four known units (UnitsFromDuration)",
 	// cfeminter: state
 	"x/cfeminter/types.GenesisState.Validate: rejects when !types.Params.ContainsMinter(<*x/cfeminter/types.GenesisState>.Params,<*x/cfeminter/types.GenesisState>.MinterState.SequenceId)": "parameter updates keep the current period (C13.current); the state advances only to an existing successor",
-	"x/cfeminter/types.MinterState.Validate: rejects when math.Int.IsNil(<*x/cfeminter/types.MinterState>.AmountMinted)":                         "state is written by mint() only, from Add results",
-	"x/cfeminter/types.MinterState.Validate: rejects when math.Int.IsNegative(<*x/cfeminter/types.MinterState>.AmountMinted)":                    "AmountMinted grows by amounts behind the IsNegative guard (C02.nonneg)",
-	"x/cfeminter/types.MinterState.Validate: rejects when types.Dec.IsNil(<*x/cfeminter/types.MinterState>.RemainderFromPreviousMinter)":         "set from a Sub result / ZeroDec",
-	"x/cfeminter/types.MinterState.Validate: rejects when types.Dec.IsNegative(<*x/cfeminter/types.MinterState>.RemainderFromPreviousMinter)":    "fractional part x - trunc(x) of a non-negative total (C02.carry)",
-	"x/cfeminter/types.MinterState.Validate: rejects when types.Dec.IsNil(<*x/cfeminter/types.MinterState>.RemainderToMint)":                     "set from a Sub result",
-	"x/cfeminter/types.MinterState.Validate: rejects when types.Dec.IsNegative(<*x/cfeminter/types.MinterState>.RemainderToMint)":                "fractional part of a non-negative amount",
+	"x/cfeminter/types.MinterState.Validate: rejects when math.Int.IsNil(<*x/cfeminter/types.MinterState>.AmountMinted)":                                                                    "state is written by mint() only, from Add results",
+	"x/cfeminter/types.MinterState.Validate: rejects when math.Int.IsNegative(<*x/cfeminter/types.MinterState>.AmountMinted)":                                                               "AmountMinted grows by amounts behind the IsNegative guard (C02.nonneg)",
+	"x/cfeminter/types.MinterState.Validate: rejects when types.Dec.IsNil(<*x/cfeminter/types.MinterState>.RemainderFromPreviousMinter)":                                                    "set from a Sub result / ZeroDec",
+	"x/cfeminter/types.MinterState.Validate: rejects when types.Dec.IsNegative(<*x/cfeminter/types.MinterState>.RemainderFromPreviousMinter)":                                               "fractional part x - trunc(x) of a non-negative total (C02.carry)",
+	"x/cfeminter/types.MinterState.Validate: rejects when types.Dec.IsNil(<*x/cfeminter/types.MinterState>.RemainderToMint)":                                                                "set from a Sub result",
+	"x/cfeminter/types.MinterState.Validate: rejects when types.Dec.IsNegative(<*x/cfeminter/types.MinterState>.RemainderToMint)":                                                           "fractional part of a non-negative amount",
 	// cfedistributor: states
 	"x/cfedistributor/types.State.IsNegative: rejects when types.DecCoin.IsNegative(<*x/cfedistributor/types.State>.Remains[*])": "leftovers change only by Add of a share, TruncateDecimal change or clearing (C03.writers)",
-	"x/cfedistributor/types.State.Validate: rejects when (<*x/cfedistributor/types.State>.Account != nil)":                        "export nils the burn state's account out (the run-time shape is an empty account): C12.shape / C12.sameshape",
-	"x/cfedistributor/types.State.Validate: rejects when (<*x/cfedistributor/types.State>.Account == nil)":                        "non-burn states are created with the destination account",
+	"x/cfedistributor/types.State.Validate: rejects when (<*x/cfedistributor/types.State>.Account != nil)":                       "export nils the burn state's account out (the run-time shape is an empty account): C12.shape / C12.sameshape",
+	"x/cfedistributor/types.State.Validate: rejects when (<*x/cfedistributor/types.State>.Account == nil)":                       "non-burn states are created with the destination account",
 }
 
 // checkGenesisRejections: rule C12.accepts.
